@@ -38,11 +38,11 @@ func getParser(p *Prog) *parserInfo {
 	parserCache[p] = pi
 	for _, fn := range parseFunctions(p) {
 		m, mc := ExploreParseFn(p, fn)
-		pi.Models[fn.Name()] = m
-		pi.Names = append(pi.Names, fn.Name())
+		pi.Models[fnName(fn)] = m
+		pi.Names = append(pi.Names, fnName(fn))
 		pi.States += mc.States
 		for _, u := range m.Undecided {
-			pi.Probs = append(pi.Probs, fn.Name()+": "+u)
+			pi.Probs = append(pi.Probs, fnName(fn)+": "+u)
 		}
 	}
 	sort.Strings(pi.Names)
